@@ -712,6 +712,44 @@ fn part_compact(ctx: &Ctx, sink: &mut Sink) {
     }
 }
 
+/// Optional spaces inside a lambda's parameter list (around `?`, after `...`, around commas and parentheses) do not change
+/// the parsed function.
+fn part_parameter_list_layout(ctx: &Ctx, sink: &mut Sink) {
+    if ctx.shard_i != 0 {
+        return;
+    }
+    let pairs: [(&str, &str); 12] = [
+        ("(x?) => x ?? 7", "(x ?) => x ?? 7"),
+        ("(x?) => x ?? 7", "( x? ) => x ?? 7"),
+        ("(...rest) => rest", "(... rest) => rest"),
+        ("(...rest) => rest", "( ...rest ) => rest"),
+        ("(x?, ...rest) => [x, rest]", "(x ?, ... rest) => [x, rest]"),
+        ("(a, b?, ...c) => [a, b, c]", "( a , b ? , ... c ) => [a, b, c]"),
+        ("(a, b?, ...c) => [a, b, c]", "(a,b?,...c) => [a, b, c]"),
+        ("(a, b) => a + b", "( a,b )=>a + b"),
+        ("(a, b) => a + b", "(a ,b) =>  a + b"),
+        ("x => x + 1", "x=>x + 1"),
+        ("(x?) => x", "(x\t?) => x"),
+        ("(a, b?, ...c) => [a, b, c]", "(\n  a,\n  b?,\n  ...c\n) => [a, b, c]"),
+    ];
+    for (canon, variant) in pairs.iter() {
+        for wrap in ["f = {}", "[1, 2] via {}", "g({}, 3)", "{k: {}}"] {
+            let a = wrap.replace("{}", &format!("({})", canon));
+            let b = wrap.replace("{}", &format!("({})", variant));
+            sink.case(&format!("paramlayout|{}", b), true);
+            match (parse1(&a), parse1(&b)) {
+                (Ok(x), Ok(y)) if x == y => {}
+                (Ok(_), other) => sink.viol(
+                    "layout parameter-list",
+                    "optional spaces inside a lambda's parameter list change the parsed function",
+                    json!({"canonical": a, "variant": b, "variant_parses_as": match other { Ok(y) => print_full(&y), Err(e) => format!("parse error: {}", e.chars().take(160).collect::<String>()) }}),
+                ),
+                (Err(_), _) => {}
+            }
+        }
+    }
+}
+
 /// Statement separation: a program is its statements, one per line. Parsing the whole text gives exactly the trees the
 /// statements give when parsed alone (only statements that start with a letter are joined: a line that starts with an
 /// operator continues the line before it by design).
@@ -768,6 +806,7 @@ pub fn run(ctx: &Ctx, sink: &mut Sink) {
     }
     if part == "all" || part == "compact" {
         part_compact(ctx, sink);
+        part_parameter_list_layout(ctx, sink);
     }
     if part == "all" || part == "table" {
         part_table(ctx, sink);
